@@ -465,15 +465,18 @@ def build_unit(name, canary=False):
     u = Unit(name)
     _expand(u, tpl_path, canary)
     auto = _auto_consts(u)
-    for i, (l, o) in enumerate(u.lines):
+    first = True
+    i = 0
+    while i < len(u.lines):
+        l, o = u.lines[i]
         if l == "//@@BROADCAST@@":
             stmt = "broadcast use {%s};" % ", ".join(u.broadcasts) if u.broadcasts else ""
             u.lines[i] = (stmt, o)
-            # module-level constants of the repository that a proved function refers to and the template does not
-            # define (a literal replaced by a named constant): taken over verbatim, their value is what the proof sees
-            for k, (txt, origin) in enumerate(auto):
-                u.lines.insert(i + 1 + k, (txt, origin))
-            if auto:
+            if first and auto:
+                # module-level constants of the repository that a proved function refers to and the template does not
+                # define (a literal replaced by a named constant): taken over verbatim, their value is what the proof sees
+                for k, (txt, origin) in enumerate(auto):
+                    u.lines.insert(i + 1 + k, (txt, origin))
                 # everything below moved down by len(auto) lines (line numbers are 1-based; the marker is line i+1)
                 n = len(auto)
                 u.labels = {(ln + n if ln > i + 1 else ln): lab for ln, lab in u.labels.items()}
@@ -481,7 +484,8 @@ def build_unit(name, canary=False):
                     a, b = f["gen_lines"]
                     if a > i + 1:
                         f["gen_lines"] = [a + n, b + n]
-            break
+            first = False
+        i += 1
     return u
 
 
